@@ -171,7 +171,8 @@ META2 = {
         explanation="safety: s_step.c with two consecutive calls - if the first returns OK, an immediately repeated call with no input returns OK, invokes no callback, writes nothing, changes nothing, and no event "
                     "is queued or in progress. liveness: local progress obligations (a reading state whose read is refused, with no event pending, reports OK - waiting for input is not work; no starvation at the flush handshake in either direction, accepted byte advances the cursor, section ends advance, computing "
                     "states change something) plus the explicit linear step bound of the r_line shapes and of the event-only runs (r_evq.c: two events and a write refusal end in OK with nothing queued within 50 calls).",
-        bounds={"quick": "queue capacities 1 (all quick pairs) and 2 (event-related pairs), 5 line shapes, 6 event-only runs", "thorough": "capacities 1,2,3,8"},
+        bounds={"quick": "queue capacities 1 (all quick pairs) and 2 (event-related pairs), 5 line shapes, 6 event-only runs",
+                "thorough": "capacity 1: the quick pairs plus every command state against the event FSM waiting for the output / flushing (command buffers up to 12 bytes); capacities 2,3,8: event-related pairs"},
         outside="a global ranking-function proof of termination is not attempted; hold is not 'stimulus-free'",
         assumptions=[RI_NOTE, FAMILY],
         level_text="inductive safety step + local progress lemmas + bounded runs"),
@@ -206,9 +207,9 @@ META2 = {
     "C19": dict(
         engine=E1 + " + " + E3,
         explanation="k_test.c: the real '=?' formatter on 1-2 (thorough 3) variables with symbolic type, width, access, name presence, description, capacity 6..64: text compared byte for byte with the reference, "
-                    "ERROR iff it does not fit or a width is unsupported. r_list.c: a run handler returns PRINT_CMD_LIST_OK; 2 (thorough 3) commands in 2 groups with symbolic handler subsets and flags; "
+                    "ERROR iff it does not fit or a width is unsupported. r_list.c: a run handler (of the first command, or of the last one so that the first command / first group may be disabled) returns PRINT_CMD_LIST_OK; 2 (thorough 3) commands in 2 groups with symbolic handler subsets and flags; "
                     "every emitted byte is compared online with the reference listing driven by advertised(cmd, form) = the dispatcher's own acceptance rule; lines that do not fit give ERROR.",
-        bounds={"quick": "k_test NV=1,2; r_list M=2 with command buffers of 10..11 and 7..8 bytes", "thorough": "k_test NV=3; r_list M=3"},
+        bounds={"quick": "k_test NV=1,2; r_list M=2 with command buffers of 10..11 and 7..8 bytes, request from the first and from the last command", "thorough": "k_test NV=3; r_list M=3 (10..11 and 6..9 bytes)"},
         outside="implicit-write commands that own variables (excepted by the property); names longer than 2 characters; more than 3 commands",
         assumptions=["snprintf is not involved", "the dispatcher's acceptance rule is the one checked by C02/C09"],
         level_text="bounded model checking of the formatter kernel and of the listing through the public API"),
@@ -218,8 +219,8 @@ META2 = {
                     "leave behind by RI's IDLE clause): identical output bytes, handler log, write-handler arguments, variable values. r_twin.c MODE 3 (concatenation, the property's own wording): two lines "
                     "on one parser vs the second line alone on a fresh parser with the variable values line 1 left - everything emitted after line 1's answer, the handler invocations and the variable "
                     "effects must be equal; first lines are chosen to leave the parser through its different exits (over-long implicit write, garbage, write). r_line.c: every newline of a response is "
-                    "CRLF iff a CR followed the line's first non-blank byte.",
-        bounds={"quick": "8 fresh-vs-junk shapes + 2 concatenation shapes + 6 CR-placement shapes", "thorough": "7 concatenation shapes"},
+                    "CRLF iff a CR followed the line's first non-blank byte. r_list.c: the same for every line of a multi-line answer (the command list after AT+A<LF> and AT+A<CR><LF>).",
+        bounds={"quick": "7 fresh-vs-junk shapes + 3 concatenation shapes + 6 CR-placement shapes + 1 command-list run", "thorough": "7 concatenation shapes"},
         outside="lines longer than the shapes; that IDLE's defined fields are exactly {state, cr_flag, hold flag, cmd, cmd_type} is RI's IDLE clause (C03 jobs)",
         assumptions=["handlers return terminal codes", RI_NOTE],
         level_text="bounded self-composition through the public API; 'after any history' rests on the inductive IDLE clause of RI"),
